@@ -218,7 +218,7 @@ Theorem rerun_equiv_flat_pregel :
     g_mode (gs_graph g) = Pregel -> g_eager (gs_graph g) = false ->
     init_chans value (gs_graph g) = Ok cs0 ->
     start VNil (ifold (gs_graph g)) (igetr (gs_graph g)) (pre_fn g)
-          (execU (SCP := ncp) (SINFO := ninfo) lam_body) [] [] fuelU cs0 (gs0 g) x tt = (ODone vU, lU, tt) ->
+          (execU (SCP := ncp) (SINFO := ninfo) (lam_body g)) [] [] fuelU cs0 (gs0 g) x tt = (ODone vU, lU, tt) ->
     (fuelU <= seg_fuel (gs_graph g))%nat ->
     drive (fun c : cpt => c) (fun c => Some c) (seg_fresh (lam_ex g) gi g x) (seg_resumed (lam_ex g) gi g)
           (fun _ e => e) true n 0 (fun _ s => s) None e = (cos, e') ->
@@ -233,7 +233,7 @@ Example rerun_equiv_flat_pregel_hypotheses_hold :
   rerun_ok w_rerun /\
   (exists cs0 v l, init_chans value w_rerun_gr = Ok cs0 /\
      start VNil (ifold w_rerun_gr) (igetr w_rerun_gr) (pre_fn w_rerun)
-           (execU (SCP := ncp) (SINFO := ninfo) lam_body) [] [] 2 cs0 (gs0 w_rerun) x1 tt = (ODone v, l, tt) /\
+           (execU (SCP := ncp) (SINFO := ninfo) (lam_body w_rerun)) [] [] 2 cs0 (gs0 w_rerun) x1 tt = (ODone v, l, tt) /\
      List.length l = 2%nat) /\
   (exists cos e,
      drive (fun c : cpt => c) (fun c => Some c) (seg_fresh (lam_ex w_rerun) 0 w_rerun x1) (seg_resumed (lam_ex w_rerun) 0 w_rerun)
